@@ -1,0 +1,351 @@
+//go:build verif
+
+package pilosa
+
+// Exported access to shard placement, resize planning, holder cleanup and the
+// API state gate for the /verif harness (properties C20, C21, C23). No
+// behaviour, only access: every function forwards to the unexported function
+// named in its comment. Clusters are assembled the way cluster_internal_test.go
+// and utils_internal_test.go assemble them (newCluster + Topology + nodes).
+
+import (
+	"github.com/pilosa/pilosa/logger"
+	"github.com/pilosa/pilosa/roaring"
+	"github.com/pkg/errors"
+)
+
+// VerifCluster wraps a cluster object.
+type VerifCluster struct {
+	c *cluster
+}
+
+// VerifClusterOptions configures VerifClusterNew.
+type VerifClusterOptions struct {
+	ReplicaN   int
+	PartitionN int    // 0 = default
+	Hasher     Hasher // nil = default (jump hash)
+	Path       string // directory for the .topology file ("" = none: use JoinBasic/LeaveBasic only)
+	Holder     *Holder
+}
+
+// VerifClusterNode returns a Node value with the given id and URI host.
+func VerifClusterNode(id, host string) *Node {
+	uri := defaultURI()
+	_ = uri.setScheme("http")
+	_ = uri.setHost(host)
+	uri.SetPort(0)
+	return &Node{ID: id, URI: *uri}
+}
+
+// VerifClusterNew is newCluster() with the given settings and an empty topology.
+func VerifClusterNew(o VerifClusterOptions) *VerifCluster {
+	c := newCluster()
+	c.ReplicaN = o.ReplicaN
+	if o.Hasher != nil {
+		c.Hasher = o.Hasher
+	}
+	if o.PartitionN > 0 {
+		c.partitionN = o.PartitionN
+	}
+	c.Path = o.Path
+	c.Topology = newTopology()
+	c.holder = o.Holder
+	return &VerifCluster{c: c}
+}
+
+// VerifClusterOfAPI returns the cluster object an API (server) uses.
+func VerifClusterOfAPI(api *API) *VerifCluster { return &VerifCluster{c: api.cluster} }
+
+// VerifClusterHolderOfAPI returns the holder an API (server) uses.
+func VerifClusterHolderOfAPI(api *API) *Holder { return api.holder }
+
+// Join is cluster.addNode.
+func (v *VerifCluster) Join(n *Node) error { return v.c.addNode(n) }
+
+// Leave is cluster.removeNode.
+func (v *VerifCluster) Leave(id string) error { return v.c.removeNode(id) }
+
+// JoinBasic is cluster.addNodeBasicSorted.
+func (v *VerifCluster) JoinBasic(n *Node) bool { return v.c.addNodeBasicSorted(n) }
+
+// LeaveBasic is cluster.removeNodeBasicSorted.
+func (v *VerifCluster) LeaveBasic(id string) bool { return v.c.removeNodeBasicSorted(id) }
+
+// SetSelf makes the member with the given id the local node (cluster.Node).
+func (v *VerifCluster) SetSelf(id string) bool {
+	n := v.c.unprotectedNodeByID(id)
+	if n == nil {
+		return false
+	}
+	v.c.Node = n
+	return true
+}
+
+// SetSelfNode sets cluster.Node (for a local node that is not (yet) a member).
+func (v *VerifCluster) SetSelfNode(n *Node) { v.c.Node = n }
+
+// SetCoordinator sets cluster.Coordinator.
+func (v *VerifCluster) SetCoordinator(id string) { v.c.Coordinator = id }
+
+// SetReplicaN sets cluster.ReplicaN.
+func (v *VerifCluster) SetReplicaN(n int) { v.c.ReplicaN = n }
+
+// NodeIDs is cluster.nodeIDs (the member list in the cluster's order).
+func (v *VerifCluster) NodeIDs() []string { return v.c.nodeIDs() }
+
+// NodeByID is cluster.unprotectedNodeByID.
+func (v *VerifCluster) NodeByID(id string) *Node { return v.c.unprotectedNodeByID(id) }
+
+// Clone returns a cluster with a copy of the node list and the same hasher,
+// partition count, replica count and holder (what
+// unprotectedGenerateResizeJobByAction assembles as toCluster).
+func (v *VerifCluster) Clone() *VerifCluster {
+	t := newCluster()
+	t.nodes = Nodes(v.c.nodes).Clone()
+	t.Hasher = v.c.Hasher
+	t.partitionN = v.c.partitionN
+	t.ReplicaN = v.c.ReplicaN
+	t.holder = v.c.holder
+	t.Topology = newTopology()
+	return &VerifCluster{c: t}
+}
+
+// Hash is cluster.Hasher.Hash.
+func (v *VerifCluster) Hash(key uint64, n int) int { return v.c.Hasher.Hash(key, n) }
+
+// PartitionN is cluster.partitionN.
+func (v *VerifCluster) PartitionN() int { return v.c.partitionN }
+
+// Partition is cluster.partition.
+func (v *VerifCluster) Partition(index string, shard uint64) int { return v.c.partition(index, shard) }
+
+// PartitionNodes is cluster.partitionNodes (ids).
+func (v *VerifCluster) PartitionNodes(p int) []string { return Nodes(v.c.partitionNodes(p)).IDs() }
+
+// ShardNodes is cluster.ShardNodes (ids).
+func (v *VerifCluster) ShardNodes(index string, shard uint64) []string {
+	return Nodes(v.c.ShardNodes(index, shard)).IDs()
+}
+
+// OwnsShard is cluster.ownsShard.
+func (v *VerifCluster) OwnsShard(nodeID, index string, shard uint64) bool {
+	return v.c.ownsShard(nodeID, index, shard)
+}
+
+// ContainsShards is cluster.containsShards.
+func (v *VerifCluster) ContainsShards(index string, shards []uint64, nodeID string) []uint64 {
+	n := v.c.unprotectedNodeByID(nodeID)
+	if n == nil {
+		n = &Node{ID: nodeID}
+	}
+	return v.c.containsShards(index, roaring.NewBitmap(shards...), n)
+}
+
+// ShardsByNode is executor.shardsByNode with the members named in nodeIDs as
+// the candidate nodes; the result is keyed by node id.
+func (v *VerifCluster) ShardsByNode(nodeIDs []string, index string, shards []uint64) (map[string][]uint64, error) {
+	e := &executor{Cluster: v.c}
+	var nodes []*Node
+	for _, id := range nodeIDs {
+		if n := v.c.unprotectedNodeByID(id); n != nil {
+			nodes = append(nodes, n)
+		}
+	}
+	m, err := e.shardsByNode(nodes, index, shards)
+	if err != nil {
+		return nil, err
+	}
+	out := make(map[string][]uint64, len(m))
+	for n, s := range m {
+		out[n.ID] = append(out[n.ID], s...)
+	}
+	return out, nil
+}
+
+// ValidateShardOwnership is API.validateShardOwnership on an API whose
+// server's node is cluster.Node.
+func (v *VerifCluster) ValidateShardOwnership(index string, shard uint64) error {
+	api := &API{cluster: v.c, server: &Server{cluster: v.c, logger: logger.NopLogger}}
+	return api.validateShardOwnership(index, shard)
+}
+
+// VerifClusterFrag is frag.
+type VerifClusterFrag struct {
+	Field string
+	View  string
+	Shard uint64
+}
+
+func verifClusterFrags(in fragsByHost) map[string][]VerifClusterFrag {
+	out := make(map[string][]VerifClusterFrag, len(in))
+	for id, fs := range in {
+		l := make([]VerifClusterFrag, 0, len(fs))
+		for _, f := range fs {
+			l = append(l, VerifClusterFrag{f.field, f.view, f.shard})
+		}
+		out[id] = l
+	}
+	return out
+}
+
+// FragCombos is cluster.fragCombos.
+func (v *VerifCluster) FragCombos(index string, shards []uint64, fieldViews map[string][]string) map[string][]VerifClusterFrag {
+	return verifClusterFrags(v.c.fragCombos(index, roaring.NewBitmap(shards...), viewsByField(fieldViews)))
+}
+
+// FragsByHost is cluster.fragsByHost.
+func (v *VerifCluster) FragsByHost(idx *Index) map[string][]VerifClusterFrag {
+	return verifClusterFrags(v.c.fragsByHost(idx))
+}
+
+// VerifClusterFragsDiff is fragsDiff.
+func VerifClusterFragsDiff(a, b []VerifClusterFrag) []VerifClusterFrag {
+	conv := func(l []VerifClusterFrag) []frag {
+		o := make([]frag, 0, len(l))
+		for _, f := range l {
+			o = append(o, frag{f.Field, f.View, f.Shard})
+		}
+		return o
+	}
+	var out []VerifClusterFrag
+	for _, f := range fragsDiff(conv(a), conv(b)) {
+		out = append(out, VerifClusterFrag{f.field, f.view, f.shard})
+	}
+	return out
+}
+
+// Diff is cluster.diff.
+func (v *VerifCluster) Diff(to *VerifCluster) (action, nodeID string, err error) {
+	return v.c.diff(to.c)
+}
+
+// FragSources is cluster.fragSources.
+func (v *VerifCluster) FragSources(to *VerifCluster, idx *Index) (map[string][]*ResizeSource, error) {
+	return v.c.fragSources(to.c, idx)
+}
+
+// VerifClusterActionAdd / VerifClusterActionRemove are the resize job actions.
+const (
+	VerifClusterActionAdd    = resizeJobActionAdd
+	VerifClusterActionRemove = resizeJobActionRemove
+)
+
+// ResizeJob is cluster.unprotectedGenerateResizeJobByAction: the sources of
+// every instruction by target node id, and the job's per-node completion map
+// as it is right after generation.
+func (v *VerifCluster) ResizeJob(action string, n *Node) (sources map[string][]*ResizeSource, done map[string]bool, err error) {
+	j, err := v.c.unprotectedGenerateResizeJobByAction(nodeAction{node: n, action: action})
+	if err != nil {
+		return nil, nil, err
+	}
+	sources = make(map[string][]*ResizeSource)
+	for _, in := range j.Instructions {
+		sources[in.Node.ID] = append(sources[in.Node.ID], in.Sources...)
+	}
+	done = make(map[string]bool, len(j.IDs))
+	for id, d := range j.IDs {
+		done[id] = d
+	}
+	return sources, done, nil
+}
+
+// State is cluster.State.
+func (v *VerifCluster) State() string { return v.c.State() }
+
+// SetState is cluster.SetState (runs the holder cleaner when leaving RESIZING).
+func (v *VerifCluster) SetState(s string) { v.c.SetState(s) }
+
+// ForceState assigns cluster.state under cluster.mu, nothing else.
+func (v *VerifCluster) ForceState(s string) {
+	v.c.mu.Lock()
+	v.c.state = s
+	v.c.mu.Unlock()
+}
+
+// CleanHolder is holderCleaner.CleanHolder for the given node and holder.
+func (v *VerifCluster) CleanHolder(self *Node, h *Holder) error {
+	var cl holderCleaner
+	cl.Node = self
+	cl.Holder = h
+	cl.Cluster = v.c
+	cl.Closing = v.c.closing
+	return cl.CleanHolder()
+}
+
+// VerifClusterFieldViews returns the names of Field.views().
+func VerifClusterFieldViews(f *Field) []string {
+	var out []string
+	for _, vw := range f.views() {
+		out = append(out, vw.name)
+	}
+	return out
+}
+
+// VerifClusterCreateView is Field.createViewIfNotExists.
+func VerifClusterCreateView(f *Field, name string) error {
+	_, err := f.createViewIfNotExists(name)
+	return err
+}
+
+// VerifClusterCreateFragment is view.CreateFragmentIfNotExists on Field.view(name).
+func VerifClusterCreateFragment(f *Field, viewName string, shard uint64) error {
+	vw, err := f.createViewIfNotExists(viewName)
+	if err != nil {
+		return err
+	}
+	_, err = vw.CreateFragmentIfNotExists(shard)
+	return err
+}
+
+// VerifClusterFragments lists the fragments registered in a holder
+// (Index.Fields / Field.views / view.allFragments), as CleanHolder walks them.
+func VerifClusterFragments(h *Holder) map[string][]VerifClusterFrag {
+	out := make(map[string][]VerifClusterFrag)
+	for _, idx := range h.Indexes() {
+		l := []VerifClusterFrag{}
+		for _, f := range idx.Fields() {
+			for _, vw := range f.views() {
+				for _, fr := range vw.allFragments() {
+					l = append(l, VerifClusterFrag{f.Name(), vw.name, fr.shard})
+				}
+			}
+		}
+		out[idx.Name()] = l
+	}
+	return out
+}
+
+// VerifClusterIsMethodNotAllowed reports whether the cause of err is an
+// apiMethodNotAllowedError.
+func VerifClusterIsMethodNotAllowed(err error) bool {
+	if err == nil {
+		return false
+	}
+	_, ok := errors.Cause(err).(apiMethodNotAllowedError)
+	return ok
+}
+
+// VerifClusterGateTable returns validAPIMethods with the method constants
+// rendered by apiMethod.String: state -> names of the allowed method constants.
+func VerifClusterGateTable() map[string][]string {
+	out := make(map[string][]string, len(validAPIMethods))
+	for st, ms := range validAPIMethods {
+		l := []string{}
+		for m := range ms {
+			l = append(l, m.String())
+		}
+		out[st] = l
+	}
+	return out
+}
+
+// VerifClusterValidate is API.validate for the method constant with the given
+// name (apiMethod.String); ok=false when no constant has that name.
+func VerifClusterValidate(api *API, name string) (err error, ok bool) {
+	for m := apiMethod(0); m < 256; m++ {
+		if m.String() == name {
+			return api.validate(m), true
+		}
+	}
+	return nil, false
+}
